@@ -25,12 +25,14 @@ theorem RecOK_intro {s₀ : SStore M} {log : List (Entry M)} {t n : Nat} {op : O
     {kind : Kind} {inv lin resp : Nat} (h1 : inv ≤ lin) (h2 : lin ≤ resp) (h3 : resp ≤ log.length)
     (h4 : match kind with
       | .committed =>
-          log[lin]? = some ⟨t, n, op⟩ ∧ lin < resp ∧
+          (∃ tm, log[lin]? = some ⟨t, n, op, tm⟩) ∧ lin < resp ∧
           (specStep op (replay s₀ (log.take lin))).1 = res ∧ ∃ v, res = .ok (some v)
       | .refused =>
           specStep op (replay s₀ (log.take lin)) = (res, replay s₀ (log.take lin)) ∧
           (res = .ok none ∨ ∃ e, res = .error e)
-      | .raced => res = .error .aborted ∨ res = .error .unavailable) :
+      | .raced =>
+          (res = .error .aborted ∧ (opGen op = true ∨ inv < resp)) ∨
+          (res = .error .unavailable ∧ inv + 5 ≤ resp)) :
     RecOK s₀ log t n ⟨op, res, kind, inv, lin, resp⟩ := ⟨h1, h2, h3, h4⟩
 
 /-- Finishing a call without touching shared state. -/
@@ -52,12 +54,14 @@ theorem Inv.commit {s₀ : SStore M} {c : Config M} (h : Inv s₀ c) (t : Nat) (
     (hth : th = c.threads t) (op : Op M) (v : M) (i : Nat) (cell : Option (Nat × M)) (nr' : Nat)
     (hnr : c.nextRef ≤ nr') (hcell : ∀ r b, cell = some (r, b) → c.nextRef ≤ r ∧ r < nr')
     (hinv : th.invAt ≤ c.log.length)
-    (hspec : specStep op (absS c.store) = (.ok (some v), setAt (absS c.store) i (cell.map (·.2)))) :
+    (hspec : specStep op (absS c.store) = (.ok (some v), setAt (absS c.store) i (cell.map (·.2))))
+    (tm : Nat) (st : Nat → Nat) (tk rg : Nat) :
     Inv s₀ { store := setAt c.store i cell
              nextRef := nr'
-             log := c.log ++ [⟨t, th.done.length, op⟩]
+             log := c.log ++ [⟨t, th.done.length, op, tm⟩]
              threads := setAt c.threads t
-               (th.finish op (.ok (some v)) .committed c.log.length (c.log.length + 1)) } := by
+               (th.finish op (.ok (some v)) .committed c.log.length (c.log.length + 1))
+             stamp := st, tick := tk, rng := rg } := by
   have hst : ∀ j r b, setAt c.store i cell j = some (r, b) → c.store j = some (r, b) ∨ c.nextRef ≤ r := by
     intro j r b hj
     simp only [setAt] at hj
@@ -66,7 +70,7 @@ theorem Inv.commit {s₀ : SStore M} {c : Config M} (h : Inv s₀ c) (t : Nat) (
     · exact Or.inl hj
   refine ⟨?_, ?_, ?_, ?_⟩
   · -- contents = replay of the extended log
-    show absS (setAt c.store i cell) = replay s₀ (c.log ++ [⟨t, th.done.length, op⟩])
+    show absS (setAt c.store i cell) = replay s₀ (c.log ++ [⟨t, th.done.length, op, tm⟩])
     rw [replay_snoc, ← h.store, absS_setAt]
     show _ = (specStep op (absS c.store)).2
     rw [hspec]
@@ -91,7 +95,7 @@ theorem Inv.commit {s₀ : SStore M} {c : Config M} (h : Inv s₀ c) (t : Nat) (
         exact ((h.thr t').recs n r hr).mono _
       · refine ⟨hinv, by simp, by simp, ?_⟩
         simp only []
-        refine ⟨by simp, by simp, ?_, v, rfl⟩
+        refine ⟨⟨tm, by simp⟩, by simp, ?_, v, rfl⟩
         rw [List.take_append_of_le_length (Nat.le_refl _), take_length_self, ← h.store, hspec]
     · exact (h.thr t').mono _ hnr hst
   · intro k e he
@@ -119,36 +123,77 @@ theorem Inv.commit {s₀ : SStore M} {c : Config M} (h : Inv s₀ c) (t : Nat) (
 
 /-! ### The four kinds of step -/
 
-theorem Inv.stepIdle {s₀ : SStore M} {c : Config M} (h : Inv s₀ c) (t : Nat)
-    (hpc : (c.threads t).pc = .idle) : Inv s₀ (stepIdle c t (c.threads t)) := by
+/-- The invariant does not mention the rng position, the stamps or the step counter. -/
+theorem Inv.frame {s₀ : SStore M} {c : Config M} (h : Inv s₀ c) (st : Nat → Nat) (tk rg : Nat) :
+    Inv s₀ { c with stamp := st, tick := tk, rng := rg } :=
+  ⟨h.store, h.refs, h.thr, h.owned⟩
+
+theorem resolveId_gen {env : Env} {c : Config M} {u₀ u : UpdOp M} {r : Nat}
+    (h : resolveId env c u₀ = (some u, r)) : u.genId = u₀.genId := by
+  unfold resolveId at h
+  by_cases hg : u₀.genId
+  · simp only [hg, if_true] at h
+    split at h
+    · cases h; exact hg.symm
+    · cases h
+  · simp only [hg] at h
+    cases h; rfl
+
+theorem resolveId_none {env : Env} {c : Config M} {u₀ : UpdOp M} {r : Nat}
+    (h : resolveId env c u₀ = (none, r)) : u₀.genId = true := by
+  unfold resolveId at h
+  by_cases hg : u₀.genId
+  · exact hg
+  · simp only [hg] at h
+    cases h
+
+theorem Inv.stepIdle {s₀ : SStore M} {c : Config M} (h : Inv s₀ c) (env : Env) (t : Nat)
+    (hpc : (c.threads t).pc = .idle) : Inv s₀ (stepIdle env c t (c.threads t)) := by
   unfold ScVerif.C02.stepIdle
   cases hprog : (c.threads t).prog with
   | nil => exact h
   | cons op rest =>
     cases op with
-    | upd u =>
+    | upd u₀ =>
+      simp only []
+      cases hres : resolveId env c u₀ with
+      | mk ou r =>
+      have h' : Inv s₀ { c with rng := r } := h.frame c.stamp c.tick r
+      cases ou with
+      | none =>
+        simp only []
+        refine Inv.finish_local h' t _ ?hd0 _ _ _ _ ?hr0
+        case hd0 => rfl
+        refine RecOK_intro (Nat.le_refl _) (Nat.le_refl _) (Nat.le_refl _) ?_
+        simp only []
+        exact Or.inl ⟨by first | rfl | trivial, Or.inl (resolveId_none hres)⟩
+      | some u =>
       simp only []
       cases hread : readUpd u (c.store u.id) with
       | error e =>
         simp only []
         have hs := readUpd_err hread
-        refine Inv.finish_local h t _ ?hd _ _ _ _ ?hr
+        refine Inv.finish_local h' t _ ?hd _ _ _ _ ?hr
         case hd => rfl
         refine RecOK_intro (Nat.le_refl _) (Nat.le_refl _) (Nat.le_refl _) ?_
         simp only []
         refine ⟨?_, Or.inr ⟨e, rfl⟩⟩
-        rw [take_length_self, ← h.store]
+        rw [take_length_self]
+        show specStep (Op.upd u) (replay s₀ c.log) = _
+        rw [← h.store]
         exact specUpd_refused_read hs
       | ok p =>
         obtain ⟨rd, created⟩ := p
         simp only []
         obtain ⟨hs, hcr, hsome⟩ := readUpd_ok hread
-        apply h.setThread
+        apply h'.setThread
         · refine ⟨(h.thr t).recs, ?_⟩
           unfold PcOK
           simp only []
-          refine ⟨Nat.le_refl _, Nat.le_refl _, ?_, hcr, hsome⟩
-          rw [take_length_self, ← h.store]; exact hs
+          refine ⟨Nat.le_refl _, Nat.le_refl _, ⟨?_, hcr, hsome⟩, fun _ => secondGet_of_readUpd hread⟩
+          rw [take_length_self]
+          show specRead u ((replay s₀ c.log) u.id) = _
+          rw [← h.store]; exact hs
         · exact ⟨[], by simp⟩
     | del d =>
       simp only []
@@ -156,7 +201,7 @@ theorem Inv.stepIdle {s₀ : SStore M} {c : Config M} (h : Inv s₀ c) (t : Nat)
       · refine ⟨(h.thr t).recs, ?_⟩
         unfold PcOK
         simp only []
-        refine ⟨Nat.le_refl _, Nat.le_refl _, by omega, ?_, ?_⟩
+        refine ⟨Nat.le_refl _, Nat.le_refl _, by omega, ?_, ?_, fun _ => by first | rfl | trivial, by omega⟩
         · rw [take_length_self, ← h.store]; rfl
         · intro r b hs
           refine ⟨h.refs _ _ _ hs, ?_⟩
@@ -173,7 +218,7 @@ theorem Inv.stepChange {s₀ : SStore M} {c : Config M} (h : Inv s₀ c) (t : Na
   unfold PcOK at hp
   rw [hpc] at hp
   simp only [] at hp
-  obtain ⟨h1, h2, hv⟩ := hp
+  obtain ⟨h1, h2, hv, hsame⟩ := hp
   unfold ScVerif.C02.stepChange
   cases hch : u.change rd with
   | error e =>
@@ -188,25 +233,29 @@ theorem Inv.stepChange {s₀ : SStore M} {c : Config M} (h : Inv s₀ c) (t : Na
     · refine ⟨(h.thr t).recs, ?_⟩
       unfold PcOK
       simp only []
-      exact ⟨h1, h2, hv, hch⟩
+      exact ⟨h1, h2, hv, hch, hsame⟩
     · exact ⟨[], by simp⟩
 
 theorem Inv.stepCommit {s₀ : SStore M} {c : Config M} (h : Inv s₀ c) (t : Nat)
     (u : UpdOp M) (rd : Option M) (created : Bool) (new : M)
-    (hpc : (c.threads t).pc = .uCommit u rd created new) :
-    Inv s₀ (stepCommit true c t (c.threads t) u rd created new) := by
+    (env : Env) (hpc : (c.threads t).pc = .uCommit u rd created new) :
+    Inv s₀ (stepCommit true env c t (c.threads t) u rd created new) := by
   have hp := (h.thr t).pc
   unfold PcOK at hp
   rw [hpc] at hp
   simp only [] at hp
-  obtain ⟨h1, h2, hv, hch⟩ := hp
+  obtain ⟨h1, h2, hv, hch, hsame⟩ := hp
   unfold ScVerif.C02.stepCommit
   simp only []
   split
-  · -- Aborted
+  · next hne =>
+    -- Aborted: the cell was rewritten since the first read, so the log has grown
     apply Inv.finish_local h t _ rfl
     refine RecOK_intro (by omega) (Nat.le_refl _) (Nat.le_refl _) ?_
-    simp
+    simp only []
+    refine Or.inl ⟨by first | rfl | trivial, Or.inr ?_⟩
+    have : (c.threads t).readAt ≠ c.log.length := fun heq => hne (hsame heq).symm
+    omega
   · next heq =>
     have heq' : rd = secondGet true u created (c.store u.id) := by
       simpa using heq
@@ -216,7 +265,7 @@ theorem Inv.stepCommit {s₀ : SStore M} {c : Config M} (h : Inv s₀ c) (t : Na
       show specUpd u (absS c.store) = _
       exact specUpd_of_read hs hch
     exact Inv.commit h t (c.threads t) rfl (.upd u) new u.id (some (c.nextRef, new)) (c.nextRef + 1)
-      (by omega) (by intro r b hrb; cases hrb; omega) (by omega) hspec
+      (by omega) (by intro r b hrb; cases hrb; omega) (by omega) hspec _ _ _ _
 
 theorem Inv.stepDel {s₀ : SStore M} {c : Config M} (h : Inv s₀ c) (t : Nat)
     (d : DelOp M) (seen : Option (Nat × M)) (attempt : Nat)
@@ -226,7 +275,7 @@ theorem Inv.stepDel {s₀ : SStore M} {c : Config M} (h : Inv s₀ c) (t : Nat)
   unfold PcOK at hp
   rw [hpc] at hp
   simp only [] at hp
-  obtain ⟨h1, h2, h3, hview, hseen⟩ := hp
+  obtain ⟨h1, h2, h3, hview, hseen, hsame, hatt⟩ := hp
   unfold ScVerif.C02.stepDel
   simp only []
   cases seen with
@@ -253,13 +302,21 @@ theorem Inv.stepDel {s₀ : SStore M} {c : Config M} (h : Inv s₀ c) (t : Nat)
     | none =>
       simp only []
       split
-      · split
+      · next hchg =>
+        -- the pointer changed since the last look: some call committed in between
+        have hgrew : (c.threads t).readAt < c.log.length := by
+          have : (c.threads t).readAt ≠ c.log.length := by
+            intro heq
+            apply hchg
+            rw [hsame heq]; rfl
+          omega
+        split
         · -- retry with the item seen under the lock
           apply h.setThread
           · refine ⟨(h.thr t).recs, ?_⟩
             unfold PcOK
             simp only []
-            refine ⟨by omega, Nat.le_refl _, by omega, ?_, ?_⟩
+            refine ⟨by omega, Nat.le_refl _, by omega, ?_, ?_, fun _ => by first | rfl | trivial, by omega⟩
             · rw [take_length_self, ← h.store]; rfl
             · intro r' b' hs
               refine ⟨h.refs _ _ _ hs, ?_⟩
@@ -269,7 +326,8 @@ theorem Inv.stepDel {s₀ : SStore M} {c : Config M} (h : Inv s₀ c) (t : Nat)
           · exact ⟨[], by simp⟩
         · apply Inv.finish_local h t _ rfl
           refine RecOK_intro (by omega) (Nat.le_refl _) (Nat.le_refl _) ?_
-          simp
+          simp only []
+          exact Or.inr ⟨by first | rfl | trivial, by omega⟩
       · next hne =>
         -- the pointer is unchanged: the stored body is the one the checks inspected
         have hcur : ∃ b', c.store d.id = some (r, b') := by
@@ -286,16 +344,21 @@ theorem Inv.stepDel {s₀ : SStore M} {c : Config M} (h : Inv s₀ c) (t : Nat)
             = (.ok (some b'), setAt (absS c.store) d.id ((none : Option (Nat × M)).map (·.2))) := by
           simp [specStep, specDel, absS, hb', hpre]
         exact Inv.commit h t (c.threads t) rfl (.del d) b' d.id none c.nextRef
-          (Nat.le_refl _) (by intro r b hrb; cases hrb) (by omega) hspec
+          (Nat.le_refl _) (by intro r b hrb; cases hrb) (by omega) hspec _ _ _ _
 
-theorem Inv.step {s₀ : SStore M} {c : Config M} (h : Inv s₀ c) (t : Nat) : Inv s₀ (step true c t) := by
-  unfold ScVerif.C02.step
+theorem Inv.stepCore {s₀ : SStore M} {c : Config M} (h : Inv s₀ c) (env : Env) (t : Nat) :
+    Inv s₀ (stepCore true env c t) := by
+  unfold ScVerif.C02.stepCore
   simp only []
   cases hpc : (c.threads t).pc with
-  | idle => exact h.stepIdle t hpc
+  | idle => exact h.stepIdle env t hpc
   | uChange u rd created => exact h.stepChange t u rd created hpc
-  | uCommit u rd created new => exact h.stepCommit t u rd created new hpc
+  | uCommit u rd created new => exact h.stepCommit t u rd created new env hpc
   | dTry d seen attempt => exact h.stepDel t d seen attempt hpc
+
+theorem Inv.step {s₀ : SStore M} {c : Config M} (h : Inv s₀ c) (env : Env) (t : Nat) :
+    Inv s₀ (step true env c t) :=
+  (h.stepCore env t).frame _ _ _
 
 theorem Inv.init (s₀ : SStore M) (progs : Nat → List (Op M)) : Inv s₀ (initCfg s₀ progs) := by
   refine ⟨?_, ?_, ?_, ?_⟩
@@ -314,10 +377,10 @@ theorem Inv.init (s₀ : SStore M) (progs : Nat → List (Op M)) : Inv s₀ (ini
   · intro k e he
     simp [initCfg] at he
 
-theorem Inv.run {s₀ : SStore M} {c : Config M} (h : Inv s₀ c) (sched : List Nat) :
-    Inv s₀ (run true c sched) := by
+theorem Inv.run {s₀ : SStore M} {c : Config M} (h : Inv s₀ c) (env : Env) (sched : List Nat) :
+    Inv s₀ (run true env c sched) := by
   induction sched generalizing c with
   | nil => exact h
-  | cons t rest ih => exact ih (h.step t)
+  | cons t rest ih => exact ih (h.step env t)
 
 end ScVerif.C02
